@@ -326,6 +326,9 @@ structure Reader where
 def Reader.empty : Reader :=
   { tick := 0, players := [], inputs := [], maxCid := -1, prevCid := none, nextKind := none, inTick := false }
 
+/-- `Reader::cids().end` = `max_cid.saturating_add(1)` -/
+def Reader.cidsEnd (rd : Reader) : Int := if rd.maxCid + 1 > i32Max then i32Max else rd.maxCid + 1
+
 /-- The part of `Reader::read` between obtaining the item kind and `read_item`: either a
 synthesised `TickStart`/`TickEnd` is returned (and the kind is kept in `next_item_kind`), or the
 call goes on to read the item. -/
@@ -371,13 +374,13 @@ def Reader.post (cfg : Cfg) (rd0 : Reader) (it : FItem) : Post :=
     | none => rd0
   match it with
   | .tickSkip dt =>
-    -- NOTE: `prev_player_cid` is *not* cleared here (the documentation's pseudo-code does clear it)
+    -- `prev_player_cid` is cleared as in the documentation's pseudo-code (repaired defect D11)
     -- `dt.try_i32()` cannot fail: `dt` came from a non-negative `i32`
     if rd.tick + 1 > i32Max ∨ rd.tick + 1 + dt > i32Max then .err .tickOverflow rd
     else if rd.inTick then
-      .item (.tickEnd rd.tick) { rd with tick := rd.tick + 1 + dt, inTick := false }
+      .item (.tickEnd rd.tick) { rd with tick := rd.tick + 1 + dt, prevCid := none, inTick := false }
     else
-      .item (.tickStart (rd.tick + 1 + dt)) { rd with tick := rd.tick + 1 + dt, inTick := true }
+      .item (.tickStart (rd.tick + 1 + dt)) { rd with tick := rd.tick + 1 + dt, prevCid := none, inTick := true }
   | .other o => .item (.other o) rd
   | .playerDiff cid dx dy =>
     let rd := { rd with prevCid := some cid }
@@ -538,21 +541,22 @@ inductive Final where
 structure Output where
   items : List Item
   final : Final
-  maxCid : Int
+  /-- `Reader::cids().end` after the last call -/
+  cidsEnd : Int
   deriving DecidableEq, Repr
 
 def Output.cons (it : Item) (o : Output) : Output := { o with items := it :: o.items }
 
 /-- Call `Reader::read` until it returns `Ok(None)` or an error. -/
 def runItems (cfg : Cfg) : Nat → Reader → Buffer → Cb → Output
-  | 0, rd, _, _ => ⟨[], .outOfFuel, rd.maxCid⟩
+  | 0, rd, _, _ => ⟨[], .outOfFuel, rd.cidsEnd⟩
   | fuel + 1, rd, b, c =>
     match rd.read cfg b c with
     | .item it rd' b' c' => (runItems cfg fuel rd' b' c').cons it
-    | .finished rd' => ⟨[], .finished, rd'.maxCid⟩
-    | .err e rd' => ⟨[], .err e, rd'.maxCid⟩
-    | .oom rd' => ⟨[], .oom, rd'.maxCid⟩
-    | .outOfFuel => ⟨[], .outOfFuel, rd.maxCid⟩
+    | .finished rd' => ⟨[], .finished, rd'.cidsEnd⟩
+    | .err e rd' => ⟨[], .err e, rd'.cidsEnd⟩
+    | .oom rd' => ⟨[], .oom, rd'.cidsEnd⟩
+    | .outOfFuel => ⟨[], .outOfFuel, rd.cidsEnd⟩
 
 /-- Enough `Reader::read` calls for a stream of `n` bytes: every item kind costs at least one
 byte and leads to at most four calls. -/
@@ -563,8 +567,8 @@ the read sizes `ds`.  `total` is the whole byte stream, header included. -/
 def run (cfg : Cfg) (hl : Nat) (total : List UInt8) (ds : List Nat) : Output :=
   let c : Cb := { rem := total, ds := ds }
   match parseLoop (pHeader hl) (c.measure + 1) Buffer.empty c with
-  | .err e => ⟨[], .err e, -1⟩
-  | .outOfFuel => ⟨[], .outOfFuel, -1⟩
+  | .err e => ⟨[], .err e, 0⟩
+  | .outOfFuel => ⟨[], .outOfFuel, 0⟩
   | .ok _ b c => runItems cfg (readFuel total.length) Reader.empty b c
 
 /-! ### Reference semantics without buffer: the stream as a list of records -/
@@ -637,32 +641,32 @@ def preAll : Nat → Reader → Kind → List Item × PreEnd
 def interp (cfg : Cfg) (rd : Reader) : List Rec → Tail → Output
   | [], tail =>
     match tail with
-    | .afterFinish => ⟨[], .finished, rd.maxCid⟩   -- not reached: `Finish` ends `interp` below
-    | .kindEnd => ⟨[], .err .unexpectedEnd, rd.maxCid⟩
-    | .kindErr e => ⟨[], .err (.item e), rd.maxCid⟩
-    | .outOfFuel => ⟨[], .outOfFuel, rd.maxCid⟩
+    | .afterFinish => ⟨[], .finished, rd.cidsEnd⟩   -- not reached: `Finish` ends `interp` below
+    | .kindEnd => ⟨[], .err .unexpectedEnd, rd.cidsEnd⟩
+    | .kindErr e => ⟨[], .err (.item e), rd.cidsEnd⟩
+    | .outOfFuel => ⟨[], .outOfFuel, rd.cidsEnd⟩
     | .restEnd k =>
       match preAll 4 rd k with
-      | (its, .ready rd') => ⟨its, .err .unexpectedEnd, rd'.maxCid⟩
-      | (its, .err e rd') => ⟨its, .err e, rd'.maxCid⟩
-      | (its, .stuck) => ⟨its, .outOfFuel, rd.maxCid⟩
+      | (its, .ready rd') => ⟨its, .err .unexpectedEnd, rd'.cidsEnd⟩
+      | (its, .err e rd') => ⟨its, .err e, rd'.cidsEnd⟩
+      | (its, .stuck) => ⟨its, .outOfFuel, rd.cidsEnd⟩
     | .restErr k e =>
       match preAll 4 rd k with
-      | (its, .ready rd') => ⟨its, .err (.item e), rd'.maxCid⟩
-      | (its, .err e' rd') => ⟨its, .err e', rd'.maxCid⟩
-      | (its, .stuck) => ⟨its, .outOfFuel, rd.maxCid⟩
+      | (its, .ready rd') => ⟨its, .err (.item e), rd'.cidsEnd⟩
+      | (its, .err e' rd') => ⟨its, .err e', rd'.cidsEnd⟩
+      | (its, .stuck) => ⟨its, .outOfFuel, rd.cidsEnd⟩
   | r :: rs, tail =>
     match preAll 4 rd r.kind with
-    | (its, .stuck) => ⟨its, .outOfFuel, rd.maxCid⟩
-    | (its, .err e rd') => ⟨its, .err e, rd'.maxCid⟩
+    | (its, .stuck) => ⟨its, .outOfFuel, rd.cidsEnd⟩
+    | (its, .err e rd') => ⟨its, .err e, rd'.cidsEnd⟩
     | (its, .ready rd') =>
       match rd'.post cfg r.item with
       | .item it rd'' =>
         let o := interp cfg rd'' rs tail
         { o with items := its ++ it :: o.items }
-      | .finished rd'' => ⟨its, .finished, rd''.maxCid⟩
-      | .err e rd'' => ⟨its, .err e, rd''.maxCid⟩
-      | .oom rd'' => ⟨its, .oom, rd''.maxCid⟩
+      | .finished rd'' => ⟨its, .finished, rd''.cidsEnd⟩
+      | .err e rd'' => ⟨its, .err e, rd''.cidsEnd⟩
+      | .oom rd'' => ⟨its, .oom, rd''.cidsEnd⟩
 
 /-- What reading the stream `s` (the bytes after the header) yields, independent of any buffer. -/
 def runWhole (cfg : Cfg) (s : List UInt8) : Output :=
